@@ -66,7 +66,16 @@ func init() {
 			s.Handler().ServeHTTP(rec, req)
 			return rec.Code
 		}
+		var runCase1 func(kind string, n int, disabled bool, ntok int, hist [][]int) error
+		// a health state machine that hangs (healthMu left locked) must end the run, not stall it
 		runCase := func(kind string, n int, disabled bool, ntok int, hist [][]int) error {
+			var err error
+			if !withDeadline(20*time.Second, func() { err = runCase1(kind, n, disabled, ntok, hist) }) {
+				return fmt.Errorf("history %v (N=%d, %d tokens) did not finish within 20 s: healthCheck or GET /health hangs", hist, n, ntok)
+			}
+			return err
+		}
+		runCase1 = func(kind string, n int, disabled bool, ntok int, hist [][]int) error {
 			cfg, err := c20Config(c.Scratch, n, disabled, ntok)
 			if err != nil {
 				return err
